@@ -27,6 +27,7 @@ Jobs (one shared run):
 import copy
 import json
 import os
+import re
 
 import vlib
 
@@ -60,6 +61,16 @@ def _cfg(name, timed, maxterm, el, hb, req, net, dup, batch, emit=False, depth=0
                 "  EMIT = %s\n  Depth = %d\nCONSTRAINT Constraint\nINVARIANTS %s\nCHECK_DEADLOCK FALSE\n"
                 % (timed, maxterm, el, hb, req, net, dup, batch, "TRUE" if emit else "FALSE", depth, inv))
     return p
+
+
+def _printed(r, marker):
+    """JSON payloads of PrintT(<<"MARKER", ToJson(x)>>).  Unlike vlib.printed_json this also
+    accepts the form TLC uses for long values (the tuple wrapped over several lines)."""
+    out = []
+    pat = re.compile(r'<<\s*"' + re.escape(marker) + r'",\s*"((?:[^"\\]|\\.)*)"\s*>>', re.S)
+    for m in pat.finditer(r.out):
+        out.append(json.loads(m.group(1).encode("utf-8").decode("unicode_escape")))
+    return out
 
 
 def _witnesses(r):
@@ -132,12 +143,12 @@ def _validate(module, cases, res, what):
     ok, r = vlib.validate_trace(SD, module, path, tag="rl_" + what, timeout=1500)
     if not ok:
         raise vlib.ToolError("trace not consumed by %s (%s):\n%s" % (module, what, r.error_trace[-2500:]))
-    viol = vlib.printed_json(r, "VIOL")
-    drift = vlib.printed_json(r, "DRIFT")
-    if not viol:
-        raise vlib.ToolError("%s (%s) printed no verdict" % (module, what))
+    viol = _printed(r, "VIOL")
+    drift = _printed(r, "DRIFT")
+    if len(viol) != 1 or len(drift) != 1:
+        raise vlib.ToolError("%s (%s) printed no verdict (VIOL %d, DRIFT %d lines)" % (module, what, len(viol), len(drift)))
     res.add_tlc(r, "trace-validation:" + what)
-    return viol[0], (drift[0] if drift else [])
+    return viol[0], drift[0]
 
 
 def _renumber(cases, base):
@@ -248,7 +259,7 @@ def _report(res, viol, cases_by_id, area, spec, canaries):
 def run(tier):
     res = vlib.PropResult("C40")
     thorough = tier == "thorough"
-    bindir = vlib.cargo_build("hv_raft", bins=["raft_step", "raft_sim", "paxos_replica"],
+    bindir = vlib.cargo_build("hv_raft", bins=["raft_step", "raft_sim", "paxos_replica", "paxos_parts"],
                               workspace="harness_hydro", timeout=7200)
     step_exe = os.path.join(bindir, "raft_step")
     sim_exe = os.path.join(bindir, "raft_sim")
@@ -282,7 +293,7 @@ def run(tier):
     if not r.ok:
         raise vlib.ToolError("RaftImpl simulation failed:\n" + r.error_trace[-3000:])
     seen, gen = set(), []
-    for c in vlib.printed_json(r, "CASE"):
+    for c in _printed(r, "CASE"):
         k = json.dumps(c, sort_keys=True)
         if k not in seen:
             seen.add(k)
@@ -300,19 +311,30 @@ def run(tier):
                         "steps": gen[len(gen) // 2]["steps"][:8]})
 
     # (3) code -> spec: seeded random schedules of the real raft_step
-    count, steps = (1500, 80) if thorough else (150, 60)
+    count, steps = (1000, 80) if thorough else (150, 60)
     rd_trace = os.path.join(d, "step_random.ndjson")
     rsumm = _run(step_exe, ["random", count, 3, steps, rd_trace], "raft_step random")
     rd_cases = _renumber(_cases(rd_trace), 100000)
-    if rsumm["commits"] < count or rsumm["nontrivial"] < count // 20:
-        raise vlib.ToolError("vacuous random raft_step run: %s" % rsumm)
+    # 5-member clusters: a majority is 3, so "stored on leader + one follower" is NOT a quorum
+    count5 = count // 2
+    rd5_trace = os.path.join(d, "step_random5.ndjson")
+    rsumm5 = _run(step_exe, ["random", count5, 5, steps + 20, rd5_trace], "raft_step random n=5")
+    rd_cases += _renumber(_cases(rd5_trace), 150000)
+    for k in ("steps", "commits", "nontrivial"):
+        rsumm[k] += rsumm5[k]
+    count += count5
+    vacuous_steps = rsumm["commits"] < count or rsumm["nontrivial"] < count // 20
     step_cases = rp_cases + rd_cases
     can = _step_canaries(rd_cases)
-    if len(can) < 3:
-        raise vlib.ToolError("could not build the three raft_step canaries from the recorded cases")
     viol, drift = _validate("RaftTrace", step_cases + [c for _, c in can], res, "steps")
     by_id = {c[0]["case"]: c for c in step_cases}
     _report(res, viol, by_id, "raft", "RaftTrace", can)
+    if vacuous_steps and not res.violations:
+        raise vlib.ToolError("vacuous random raft_step run: %s" % rsumm)
+    if len(can) < 3 and not res.violations:
+        # (on a broken implementation the recorded cases may not contain the needed situations;
+        #  that must not mask the violations themselves)
+        raise vlib.ToolError("could not build the three raft_step canaries from the recorded cases")
     nd = 0
     for case, line in drift:
         if case > CANARY_BASE:
@@ -404,11 +426,11 @@ def _sim_stages(res, thorough, sim_exe, kv_exe, px_exe, d):
     res.traces += len(ix_cases)
     res.evaluations += nix
     can = _sim_canary(sim_cases)
-    if not can and "aborted" not in ssumm:
-        raise vlib.ToolError("could not build the simulator canary (no position committed by two members)")
     viol, drift = _validate("ReplLogTrace", all_sim + [c for _, c in can], res, "sim")
     by_id = {c[0]["case"]: c for c in all_sim}
     _report(res, viol, by_id, "replog", "ReplLogTrace", can)
+    if not can and not res.violations:
+        raise vlib.ToolError("could not build the simulator canary (no position committed by two members)")
     for case in drift[:5]:
         res.drift.append({"kind": "kv_replica did not apply exactly the delivered gap-free prefix", "case": case})
     res.traces += len(sim_cases) + xs["explored"] + len(kv_cases) + kxs["explored"]
@@ -468,8 +490,10 @@ def _paxos_stage(res, thorough, px_exe, d):
     if not ok:
         raise vlib.ToolError("trace not consumed by PaxosTrace:\n%s" % r.error_trace[-2500:])
     res.add_tlc(r, "trace-validation:recommit")
-    viol = vlib.printed_json(r, "VIOL")[0]
-    drift = vlib.printed_json(r, "DRIFT")[0]
+    pv, pd = _printed(r, "VIOL"), _printed(r, "DRIFT")
+    if len(pv) != 1 or len(pd) != 1:
+        raise vlib.ToolError("PaxosTrace printed no verdict")
+    viol, drift = pv[0], pd[0]
     if [CANARY_BASE + 1, "RecommitValueKept"] not in viol:
         raise vlib.ToolError("recommit canary (changed re-proposed value) was NOT rejected: %s" % viol)
     res.extra.setdefault("canaries", []).append("PaxosTrace: changed re-proposed value rejected")
